@@ -156,6 +156,7 @@ def get_attr(I, obj, name, node):
         return Builtin('logging.log')
     if isinstance(obj, AObj):
         if name in obj.attrs:
+            I.emit('attr-read', node, {'obj': obj, 'name': name})
             return obj.attrs[name]
         if name == '__class__':
             return obj.cls
